@@ -10,7 +10,7 @@ Import ListNotations.
 Definition crit (t : lo) : bool :=
   match l_kind t, l_pc t with
   | KAct _ _ _, (PMain | PGlob | PCleanup | PIdxL | PIdxT | PUpdCode | PUpdId | PRbL | PRbT | PRbGlob | PRbMain
-                | PRelease _ | PDone (ROk _)) => true
+                | PRelease _ | PDone (ROk _) | PRelAdm (ROk _)) => true
   | KRev, (PUpdCode | PUpdId | PRelease _ | PDone RRevoked) => true
   | _, _ => false
   end.
@@ -19,7 +19,7 @@ Definition crit (t : lo) : bool :=
    a revoker past its claim.  At most one of them ever exists, across expiry as well. *)
 Definition can_win (t : lo) : bool :=
   match l_kind t, l_pc t with
-  | KAct _ _ _, (PUpdCode | PUpdId | PDone (ROk _)) => true
+  | KAct _ _ _, (PUpdCode | PUpdId | PDone (ROk _) | PRelAdm (ROk _)) => true
   | KRev, (PUpdCode | PUpdId | PDone RRevoked) => true
   | _, _ => false
   end.
@@ -27,7 +27,8 @@ Definition can_win (t : lo) : bool :=
 (* the main record of this caller's mapping is in the store *)
 Definition has_rec (t : lo) : bool :=
   match l_kind t, l_pc t with
-  | KAct _ _ _, (PGlob | PCleanup | PIdxL | PIdxT | PUpdCode | PUpdId | PRbL | PRbT | PRbGlob | PRbMain | PDone (ROk _)) => true
+  | KAct _ _ _, (PGlob | PCleanup | PIdxL | PIdxT | PUpdCode | PUpdId | PRbL | PRbT | PRbGlob | PRbMain | PDone (ROk _)
+                | PRelAdm (ROk _)) => true
   | _, _ => false
   end.
 
@@ -39,8 +40,18 @@ Definition mk_rec (P : params) (t : lo) : mrec :=
 
 Definition not_me (i : nat) (m : mrec) : bool := negb (Nat.eqb (m_id m) i).
 
+(* the mapping id a (finishing) successful activation returns *)
+Definition okres (t : lo) : option nat :=
+  match l_pc t with PDone (ROk m) | PRelAdm (ROk m) => Some m | _ => None end.
+
+Lemma okres_done t m : l_pc t = PDone (ROk m) -> okres t = Some m.
+Proof. intros H. unfold okres. rewrite H. reflexivity. Qed.
+
 Lemma can_win_crit t : can_win t = true -> crit t = true.
-Proof. unfold can_win, crit. destruct (l_kind t); destruct (l_pc t) as [| | | | | | | | | | | | | | e | | r]; try discriminate; auto. Qed.
+Proof.
+  unfold can_win, crit. destruct (l_kind t); destruct (l_pc t) as [| | | | | | | | | | | | | | e | | r | | r]; try discriminate; auto;
+    destruct r; try discriminate; auto.
+Qed.
 
 (* ---------- what one step of the repaired code can do (brute-force case analysis, done once) ---------- *)
 
@@ -63,16 +74,17 @@ Lemma step_facts (P : params) (t : lo) (s : sh) (t' : lo) (s' : sh) :
   /\ ((mains s' = mains s /\ has_rec t' = has_rec t)
       \/ (mains s' = mk_rec P t :: mains s /\ has_rec t = false /\ has_rec t' = true /\ exists l la ok, l_kind t = KAct l la ok)
       \/ (mains s' = filter (not_me (l_me t)) (mains s) /\ has_rec t' = false))
-  /\ (forall m, l_pc t' = PDone (ROk m) -> l_pc t = PDone (ROk m) \/ (m = l_me t /\ can_win t' = true)).
+  /\ (forall m, okres t' = Some m -> (okres t = Some m /\ can_win t' = can_win t) \/ (m = l_me t /\ can_win t' = true)).
 Proof.
   destruct t as [me k p snap f e]. unfold tstep. cbn [l_kind].
   destruct k as [l la ok | | ].
   - (* activator *)
     unfold act_step; cbn [l_pc l_me l_fault l_snap l_err].
-    destruct p as [| | | | | | | | | | | | | | e0 | | r]; cbn [use_claim create_cleanup Current leave];
+    destruct p as [| | | | | | | | | | | | | | e0 | | r | | r]; try (destruct r as [m0| | | |e1|]);
+      cbn [use_claim create_cleanup use_admit Current leave fin];
       break_step; intros H; inversion H; subst; clear H;
-      cbn [crit can_win has_rec mk_rec l_kind l_pc l_me set_pc set_snap set_fault set_err finish
-           expired claim mains set_claim set_mains set_glob set_cidx set_by_code set_by_id del_main];
+      cbn [crit can_win has_rec okres mk_rec l_kind l_pc l_me set_pc set_snap set_fault set_err finish
+           expired claim mains set_claim set_admit set_mains set_glob set_cidx set_by_code set_by_id del_main];
       (split; [reflexivity|]); (split; [reflexivity|]);
       repeat match goal with |- _ /\ _ => split end;
       try (intros; try discriminate; try congruence; auto; fail);
@@ -82,10 +94,11 @@ Proof.
       try (intros m Hm; inversion Hm; subst; auto; fail).
   - (* revoker *)
     unfold rev_step; cbn [l_pc l_me l_fault l_snap l_err].
-    destruct p as [| | | | | | | | | | | | | | e0 | | r]; cbn [use_claim create_cleanup Current leave];
+    destruct p as [| | | | | | | | | | | | | | e0 | | r | | r]; try (destruct r as [m0| | | |e1|]);
+      cbn [use_claim create_cleanup use_admit Current rleave];
       break_step; intros H; inversion H; subst; clear H;
-      cbn [crit can_win has_rec mk_rec l_kind l_pc l_me set_pc set_snap set_fault set_err finish
-           expired claim mains set_claim set_mains set_glob set_cidx set_by_code set_by_id del_main];
+      cbn [crit can_win has_rec okres mk_rec l_kind l_pc l_me set_pc set_snap set_fault set_err finish
+           expired claim mains set_claim set_admit set_mains set_glob set_cidx set_by_code set_by_id del_main];
       (split; [reflexivity|]); (split; [reflexivity|]);
       repeat match goal with |- _ /\ _ => split end;
       try (intros; try discriminate; try congruence; auto; fail);
@@ -93,8 +106,8 @@ Proof.
       try (intros m Hm; inversion Hm; subst; auto; fail).
   - (* tick *)
     cbn [l_pc].
-    destruct p as [| | | | | | | | | | | | | | e0 | | r]; intros H; inversion H; subst; clear H;
-      cbn [crit can_win has_rec mk_rec l_kind l_pc l_me set_pc finish expired claim mains set_expired];
+    destruct p as [| | | | | | | | | | | | | | e0 | | r | | r]; try (destruct r as [m0| | | |e1|]); intros H; inversion H; subst; clear H;
+      cbn [crit can_win has_rec okres mk_rec l_kind l_pc l_me set_pc finish expired claim mains set_expired];
       (split; [reflexivity|]); (split; [reflexivity|]);
       repeat match goal with |- _ /\ _ => split end;
       try (intros; try discriminate; try congruence; auto; fail);
@@ -125,7 +138,7 @@ Section Inv.
     inv_win : at_most_one can_win (snd s);
     inv_own : forall m, In m (mains (fst s)) -> owned (snd s) m;
     inv_nodup : NoDup (map m_id (mains (fst s)));
-    inv_ok : forall i t m, nth_error (snd s) i = Some t -> l_pc t = PDone (ROk m) -> m = l_me t /\ can_win t = true
+    inv_ok : forall i t m, nth_error (snd s) i = Some t -> okres t = Some m -> m = l_me t /\ can_win t = true
   }.
 
   Lemma nth_upd_cases {A} (l : list A) i j x y :
@@ -236,9 +249,8 @@ Section Inv.
     - (* ROk reports the caller's own mapping *)
       intros a ta m Ha Hpc.
       destruct (nth_upd_cases _ _ _ _ _ Ha) as [(<- & -> & _)|(Hna & Ha')].
-      + destruct (Fok m Hpc) as [Hold|(-> & Hw)].
-        * destruct (Iok _ _ _ Hi Hold) as [-> Hw]. split; [congruence|].
-          unfold can_win in *. rewrite Fkind, Hpc. rewrite Hold in Hw. exact Hw.
+      + destruct (Fok m Hpc) as [(Hold & Hsame)|(-> & Hw)].
+        * destruct (Iok _ _ _ Hi Hold) as [-> Hw]. split; [congruence|]. rewrite Hsame. exact Hw.
         * split; [congruence|exact Hw].
       + exact (Iok _ _ _ Ha' Hpc).
   Qed.
@@ -250,9 +262,9 @@ Section Inv.
     mains (fst s) = [] /\ (forall t, In t (snd s) -> fresh t) /\
     (forall i j ti tj, nth_error (snd s) i = Some ti -> nth_error (snd s) j = Some tj -> l_me ti = l_me tj -> i = j).
 
-  Lemma fresh_classes t : fresh t -> crit t = false /\ can_win t = false /\ (forall m, l_pc t <> PDone (ROk m)).
+  Lemma fresh_classes t : fresh t -> crit t = false /\ can_win t = false /\ (forall m, okres t <> Some m).
   Proof.
-    intros [H|[e H]]; unfold crit, can_win; rewrite H; destruct (l_kind t); repeat split; try reflexivity; intros m; discriminate.
+    intros [H|[e H]]; unfold crit, can_win, okres; rewrite H; destruct (l_kind t); repeat split; try reflexivity; intros m; discriminate.
   Qed.
 
   Lemma inv_init s : start_ok s -> Inv s.
@@ -283,7 +295,7 @@ Section Inv.
       l_pc ti = PDone (ROk mi) -> l_pc tj = PDone (ROk mj) -> i = j.
   Proof.
     intros H i j ti tj mi mj Hi Hj Hpi Hpj. destruct (inv_all s sched H) as [_ _ _ Iwin _ _ Iok].
-    apply (Iwin i j ti tj Hi Hj); [apply (Iok _ _ _ Hi Hpi) | apply (Iok _ _ _ Hj Hpj)].
+    apply (Iwin i j ti tj Hi Hj); [apply (Iok _ _ _ Hi (okres_done _ _ Hpi)) | apply (Iok _ _ _ Hj (okres_done _ _ Hpj))].
   Qed.
 
   Lemma length_le_1 {A B} (f : A -> B) (l : list A) :
@@ -309,7 +321,7 @@ Section Inv.
       destruct (Hdone t (nth_error_In _ _ Hk)) as [r Hr]. exists k, t.
       unfold has_rec in Hrec. rewrite Hr in Hrec.
       destruct (l_kind t) eqn:Ek; try discriminate. destruct r as [m0| | | |e|]; try discriminate.
-      destruct (Iok _ _ _ Hk Hr) as [-> Hw]. rewrite Hid in *. tauto. }
+      destruct (Iok _ _ _ Hk (okres_done _ _ Hr)) as [-> Hw]. rewrite Hid in *. tauto. }
     split.
     - apply (length_le_1 m_id); [exact Indup|]. intros a b Ha Hb.
       destruct (W a Ha) as (i & ti & Hi & Hida & Hwa & _). destruct (W b Hb) as (j & tj & Hj & Hidb & Hwb & _).
@@ -359,7 +371,7 @@ Section Inv.
     assert (W : forall k t, nth_error (snd (srun s sched)) k = Some t -> won t -> can_win t = true).
     { intros k t Hk [[Hkind Hpc]|[m Hpc]].
       - unfold can_win. rewrite Hkind, Hpc. reflexivity.
-      - apply (Iok _ _ _ Hk Hpc). }
+      - apply (Iok _ _ _ Hk (okres_done _ _ Hpc)). }
     exact (Iwin _ _ _ _ Hi Hj (W _ _ Hi Wi) (W _ _ Hj Wj)).
   Qed.
 
@@ -375,11 +387,41 @@ Section Inv.
 
   Lemma claim_held_turns_away t s0 l la ok :
     l_kind t = KAct l la ok -> l_pc t = PClaim -> claim s0 = true ->
-    snd (step t s0) = s0 /\ exists e, l_pc (fst (step t s0)) = PDone (RErr e).
+    snd (step t s0) = s0 /\ exists e, l_pc (fst (step t s0)) = PRelAdm (RErr e).
   Proof.
     intros Hkt Hpt Hc. unfold tstep, act_step. rewrite Hkt, Hpt.
     destruct (l_fault t) as [[|k]|]; cbn [tick_fault]; try rewrite Hc;
       (split; [reflexivity|eexists; reflexivity]).
+  Qed.
+
+  (* the only thing left for such a caller: give back its admission marker and return the error *)
+  Lemma release_admission_only t s0 l la ok r :
+    l_kind t = KAct l la ok -> l_pc t = PRelAdm r ->
+    l_pc (fst (step t s0)) = PDone r /\
+    by_code (snd (step t s0)) = by_code s0 /\ by_id (snd (step t s0)) = by_id s0 /\ claim (snd (step t s0)) = claim s0 /\
+    mains (snd (step t s0)) = mains s0 /\ glob (snd (step t s0)) = glob s0 /\ cidx (snd (step t s0)) = cidx s0.
+  Proof. intros Hk Hp. unfold tstep, act_step. rewrite Hk, Hp. cbn. repeat split. Qed.
+
+  (* an activation refused at the admission marker (another request of the same listen client is being admitted, or
+     the SetNX failed) returns an error and changes nothing *)
+  Theorem refused_at_admission_changes_nothing t s0 l la ok :
+    l_kind t = KAct l la ok -> l_pc t = PAdmit ->
+    (admitted s0 l = true \/ l_fault t = Some 0) ->
+    snd (step t s0) = s0 /\ exists e, l_pc (fst (step t s0)) = PDone (RErr e).
+  Proof.
+    intros Hk Hp Hr. unfold tstep, act_step. rewrite Hk, Hp.
+    destruct Hr as [Ha|Hf].
+    - destruct (l_fault t) as [[|k]|]; cbn [tick_fault]; try rewrite Ha; (split; [reflexivity|eexists; reflexivity]).
+    - rewrite Hf. cbn [tick_fault]. split; [reflexivity|eexists; reflexivity].
+  Qed.
+
+  (* and an admitted one takes exactly its own client's marker; other clients' markers are untouched *)
+  Theorem admission_is_per_client t s0 l la ok :
+    l_kind t = KAct l la ok -> l_pc t = PAdmit -> admitted s0 l = false -> l_fault t <> Some 0 ->
+    l_pc (fst (step t s0)) = PQuota /\ admk (snd (step t s0)) = l :: admk s0.
+  Proof.
+    intros Hk Hp Ha Hf. unfold tstep, act_step. rewrite Hk, Hp.
+    destruct (l_fault t) as [[|k]|]; cbn [tick_fault]; try congruence; rewrite Ha; split; reflexivity.
   Qed.
 
   (* while the activation period lasts, a completed revocation keeps the claim: an activator that read the code
@@ -390,7 +432,7 @@ Section Inv.
     claim (fst (srun s sched)) = true /\
     forall t l la ok, l_kind t = KAct l la ok -> l_pc t = PClaim ->
       snd (step t (fst (srun s sched))) = fst (srun s sched) /\
-      exists e, l_pc (fst (step t (fst (srun s sched)))) = PDone (RErr e).
+      exists e, l_pc (fst (step t (fst (srun s sched)))) = PRelAdm (RErr e).
   Proof.
     intros H Hexp (tr & Hin & Hk & Hp). destruct (inv_all s sched H) as [_ Ifree _ _ _ _ _].
     assert (Hc : claim (fst (srun s sched)) = true).
@@ -461,7 +503,7 @@ Section Inv.
           split; [exact Hd|]. split; [exact Hm|]. left. right. exists e. exact Hp.
       - assert (Q : forall m, l_pc t <> PDone (ROk m)).
         { destruct Ht as [[Hp|[e Hp]]|[_ Hq]]; [| |exact Hq]; intros m; rewrite Hp; discriminate. }
-        destruct (l_pc t) as [| | | | | | | | | | | | | | e0 | | r] eqn:Hp; inversion Hst; subst; cbn [dead by_code expired mains set_expired];
+        destruct (l_pc t) as [| | | | | | | | | | | | | | e0 | | r | | r] eqn:Hp; inversion Hst; subst; cbn [dead by_code expired mains set_expired];
           (split; [try reflexivity; exact Hd|]); (split; [exact Hm|]); right;
           try (split; [cbn; exact Hk|cbn; intros m; discriminate]).
         split; [exact Hk|]. rewrite Hp. exact Q. }
@@ -517,8 +559,8 @@ Lemma current_same_schedule_one_success :
 Proof. vm_compute. repeat split. Qed.
 
 Lemma current_failed_append_leaves_nothing :
-  let s := run sh lo (tstep Current P0) (s0 [init_lo 0 (KAct 101 0 true) false (Some 2)]) (repeat 0 12) in
-  finished (snd s) = true /\ errs (snd s) = 1 /\ mains (fst s) = [] /\ claim (fst s) = false.
+  let s := run sh lo (tstep Current P0) (s0 [init_lo 0 (KAct 101 0 true) false (Some 3)]) (repeat 0 14) in
+  finished (snd s) = true /\ errs (snd s) = 1 /\ mains (fst s) = [] /\ claim (fst s) = false /\ admk (fst s) = [].
 Proof. vm_compute. repeat split. Qed.
 
 Lemma premises_satisfiable : start_ok (s0 two_activators).
